@@ -207,3 +207,51 @@ def run_check(pid: str, tier: str, fn) -> int:
         traceback.print_exc(file=sys.stdout)
         print(f"ANALYSIS-ERROR property={pid}: internal error {type(e).__name__}: {e}")
         return EXIT_ANALYSIS
+
+
+def run_sections(rep: Report, sections, *args, jobs: int | None = None) -> None:
+    """run independent section functions ``fn(rep, *args)`` in forked workers and merge
+    what they recorded into ``rep`` (order of sections is preserved)"""
+    import multiprocessing as mp
+
+    def work(fn):
+        sub = Report(rep.pid, rep.tier, rep.level, rep.technique)
+        try:
+            fn(sub, *args)
+        except AnalysisError as e:
+            return {"error": str(e)}
+        return {
+            "findings": sub.findings,
+            "obligations": sub.obligations,
+            "analysed": sub.analysed,
+            "samples": sub.samples,
+            "notes": sub.notes,
+            "floors": sub.floors,
+            "assumptions": sub.assumptions,
+        }
+
+    global _SECTION_WORK
+    _SECTION_WORK = work
+    with mp.get_context("fork").Pool(min(len(sections), jobs or os.cpu_count() or 1)) as pool:
+        results = pool.map(_call_section, list(sections), chunksize=1)
+    for res in results:
+        if "error" in res:
+            raise AnalysisError(res["error"])
+        for f in res["findings"]:
+            if all(g.key != f.key for g in rep.findings):
+                rep.findings.append(f)
+        rep.obligations += res["obligations"]
+        for k, v in res["analysed"].items():
+            rep.analysed.setdefault(k, []).extend(v)
+        for s_ in res["samples"]:
+            rep.sample(s_)
+        rep.notes += res["notes"]
+        rep.floors += res["floors"]
+        rep.assumptions += res["assumptions"]
+
+
+_SECTION_WORK = None
+
+
+def _call_section(fn):
+    return _SECTION_WORK(fn)
